@@ -165,9 +165,71 @@ def run_case(case):
         sc.destroy()
 
 
+def run_matrix(rep, tier):
+    """The deterministic (rewrite operation x upstream position x agent-line position) table; see c02_matrix.py."""
+    from . import c02_matrix as M
+    from .. import runner as R
+    known = [e for e in R.load_known("C02") if e.get("status") == "open" and e.get("cells2")]
+    cells = M.cells()
+    if tier != "thorough":
+        cells = [c for c in cells if c.endswith("|middle") or c.endswith("|last")]     # top / bottom positions run in the thorough tier
+    res = R.run_pool(M.run_cell, [dict(cell=c) for c in cells], 300 if tier != "thorough" else 900)
+    by_finding = {}
+    failing = []
+    for r in res:
+        rep.evaluations += 1
+        for k, v in (r.get("stats") or {}).items():
+            if isinstance(v, (int, float)):
+                rep.counters[k] += v
+        rep.counters["matrix_cells_run"] += 1
+        if r.get("inconclusive"):
+            rep.inconclusive.append(dict(case=r.get("case"), why=str(r["inconclusive"])[:300]))
+            continue
+        if not r.get("applicable"):
+            rep.counters["matrix_cells_not_applicable"] += 1
+            continue
+        rep.sigs.add(r["sig"])
+        if not r.get("viol"):
+            rep.counters["matrix_cells_held"] += 1
+            continue
+        kinds = sorted({v["kind"] for v in r["viol"]})
+        e = M.classify(r["cell"], known)
+        if e is not None and all(k in e.get("cell_kinds2", []) for k in kinds):
+            by_finding.setdefault(e["id"], []).append(r["cell"])
+            rep.counters["matrix_cells_failing_known"] += 1
+        else:
+            failing.append(r["cell"])
+            for k in kinds:
+                rep.viol_kinds[k] += 1
+            if len(rep.violations) < 8:
+                rep.violations.append((kinds[0], rep.write_replay(r, "matrix")))
+    for fid, cs in sorted(by_finding.items()):
+        rep.known_finding("%s matrix cells (operation|upstream change|agent-line position) failing as listed: %s" % (fid, " ".join(sorted(cs))))
+    rep.extra["matrix"] = dict(cells_total=len(cells), known_failing={k: sorted(v) for k, v in by_finding.items()}, unlisted_failing=failing)
+    if len(res) < len(cells):
+        rep.inconclusive.append(dict(case="matrix", why="only %d of %d cells finished inside the budget" % (len(res), len(cells))))
+
+
+ASSUMPTIONS = ["ledger oracle (content identity survives every rewrite); conflicts are resolved with kept or fresh keys, never by retyping AI content",
+               "octopus merges, submodules, --rebase-merges not generated",
+               "bounded-exhaustive part: rewrite operation x upstream-change position x agent-line position table (vf/props/c02_matrix.py); cells in which "
+               "git itself stops on a conflict are counted as not applicable"]
+
+
 def main(tier, seed, replay=None):
     ops = os.environ.get("VERIF_C02_OPS")
-    return C.standard_main("C02", run_case, RULE, "exploration",
-                           ["ledger oracle (content identity survives every rewrite); conflicts are resolved with kept or fresh keys, never by retyping AI content",
-                            "octopus merges, submodules, --rebase-merges not generated"],
-                           tier, seed, replay, 60, 600, extra_case=(lambda i: dict(ops=ops.split(","))) if ops else None)
+    if replay:
+        import json
+        from .. import runner as R
+        j = json.load(open(replay))
+        if (j.get("case") or {}).get("cell"):
+            from . import c02_matrix as M
+            rep = R.Report("C02", tier, seed, "exploration", RULE, ASSUMPTIONS)
+            r = R._worker((M.run_cell, j["case"]))
+            for l in r.get("log") or []:
+                R.log("  ", l)
+            rep.add_results([r])
+            return rep.finish(min_nontrivial=0)
+    return C.standard_main("C02", run_case, RULE, "exploration", ASSUMPTIONS,
+                           tier, seed, replay, 60, 600, extra_case=(lambda i: dict(ops=ops.split(","))) if ops else None,
+                           before_pool=None if (ops or replay) else (lambda rep: run_matrix(rep, tier)))
